@@ -201,9 +201,8 @@ func (fi *File) Type() NodeType {
 }
 
 func (fi *File) Mode() (os.FileMode, error) {
-	fi.nodeLock.RLock()
-	defer fi.nodeLock.RUnlock()
-
+	// GetNode takes nodeLock itself; taking it here as well would be a
+	// recursive read lock, which deadlocks once a writer is queued in between.
 	nd, err := fi.GetNode()
 	if err != nil {
 		return 0, err
@@ -242,9 +241,7 @@ func (fi *File) SetMode(mode os.FileMode) error {
 
 // ModTime returns the files' last modification time.
 func (fi *File) ModTime() (time.Time, error) {
-	fi.nodeLock.RLock()
-	defer fi.nodeLock.RUnlock()
-
+	// see Mode: GetNode does the locking
 	nd, err := fi.GetNode()
 	if err != nil {
 		return time.Time{}, err
